@@ -188,7 +188,7 @@ def run(chk, tier):
         Lc, Lr = P("L%d" % on["coverage_pattern_number"]), P("L%d" % on["radials"])
         SC = "nexrad_model::data::scan::Scan"
         want = sym.opt_match(Lc, lambda x: ok(adt(SC, "Scan", (("coverage_pattern_number", x), ("sweeps", call(FROM_RADIALS, Lr))))),
-                             lambda: err(("conv", adt("nexrad_data::result::Error", "MissingCoveragePattern", ()))))
+                             lambda: err(adt("nexrad_data::result::Error", "MissingCoveragePattern", ())))
         expect(chk, "R-WIRE", SCAN, ret, want, fn.where(), "Scan(first VCP or MissingCoveragePattern error, Sweep::from_radials(all radials))")
     # ---------------- prerequisites re-checked here
     c09.from_radials(chk, prog)
